@@ -57,6 +57,14 @@ def run(trace, collect_states=False):
     return solverworld.run_trace(st["fs"], trace, st["flog"], st["preempt"], collect_states)
 
 
+def run_isolated(trace, collect_states=False, cap_s=240):
+    """One run = one forked child of this (pristine) process: nothing a run writes into
+    module- or class-level state can reach another run."""
+    from . import isolate
+    get()
+    return isolate.run_forked(lambda: run(trace, collect_states), cap_s)
+
+
 def gen(prop, seed, config, tier):
     if prop in ("C09", "C11"):
         from . import meshworld
